@@ -199,7 +199,7 @@ def inr(j, n):
     return tm.land(tm.le(tm.const(0), j), tm.lt(j, n))
 
 
-def dependency_obligations(ctx, which=("build_matrix", "solve", "alpha", "mscaled")):
+def dependency_obligations(ctx, which=("build_matrix", "solve", "alpha", "mscaled", "twophase")):
     """the callee / data-structure contracts a reservoir proof rests on, re-verified inside the dependent check
     (a change inside a callee is noticed by the callee's own obligation, under the dependent property's id)"""
     from . import c04, c09
@@ -213,6 +213,8 @@ def dependency_obligations(ctx, which=("build_matrix", "solve", "alpha", "mscale
         want += [("c09", "alpha.range")]
     if "mscaled" in which:
         want += [("c09", "init.mscaled_increasing.long"), ("c09", "init.frame")]
+    if "twophase" in which:
+        want += [("c04", "twophase.delegates")]
     built = {}
     for modname, oid in want:
         if modname not in built:
@@ -285,6 +287,78 @@ def install_method_contracts(ctx):
 def uninstall_method_contracts(ctx):
     for q in (FP + "FlowProperties.__init__", SSIM, ISIM, RF):
         ctx.engine.opaque.pop(q, None)
+
+
+def twophase_delegates(ctx):
+    """obligation body: TwoPhaseReservoir.simulate(time) is exactly one SinglePhaseReservoir.simulate(time) on the same
+    object (no schedule), and writes nothing else - so every contract of SinglePhaseReservoir.simulate carries over"""
+    def run():
+        f = ctx.engine.func(RES + "TwoPhaseReservoir.simulate")
+        install_method_contracts(ctx)
+        holder = {}
+        try:
+            def mk():
+                fluid, _ = make_fluid(ctx)
+                r = make_reservoir(ctx, "TwoPhaseReservoir", fluid, {"Sw_init": tm.var("Sw0")})
+                holder["r"], holder["t"] = r, time_arr()
+                return [r, holder["t"]], {}
+            outs = [o for o in ctx.engine.run_paths(f, mk, pc=[tm.ge(nt, tm.const(2)), tm.ge(nx, tm.const(3))]) if o.kind != "infeasible"]
+        finally:
+            uninstall_method_contracts(ctx)
+        bad = lambda msg: be.Verdict(be.REFUTED, "STRUCT", witness={}, detail="TwoPhaseReservoir.simulate: " + msg)
+        if len(outs) != 1 or outs[0].kind != "return":
+            return bad(f"{len(outs)} paths ({[o.kind for o in outs]}) where SinglePhaseReservoir.simulate(time) without schedule has one")
+        o = outs[0]
+        g = o.heap["ghost"]
+        sims = g.get("sim_calls", [])
+        r = o.heap["args"][0]
+        if len(sims) != 1 or sims[0]["receiver"] is not r or sims[0]["schedule"] is not None or sims[0]["cls"] != "TwoPhaseReservoir":
+            return bad(f"{len(sims)} calls of the inherited simulate (expected one, on self, without a schedule)")
+        jj = tm.var("__j", tm.I)
+        if sims[0]["time"].shape != o.heap["args"][1].shape or sims[0]["time_fn"]((jj,)) is not tm.app("t", [jj], (tm.I if TIME_DTYPE[0] == "i8" else tm.R)):
+            return bad("the inherited simulate is not given the caller's time grid")
+        extra = list(r.writes)
+        for w_ in (("set", "time"), ("set", "pseudopressure")):
+            if w_ in extra:
+                extra.remove(w_)
+        if extra or g.get("global_writes"):
+            return bad(f"further state written besides the inherited simulate's: {extra or g.get('global_writes')}")
+        ppf = r.fields.get("pseudopressure")
+        if not isinstance(ppf, ArrV) or getattr(ppf, "name", None) != "SIM0" or ppf.get(jj, jj) is not tm.app("SIM0", (jj, jj), tm.R):
+            return bad("the stored field is not the one the inherited simulate stored")
+        before = {k: v for k, v in sims[0]["fields"].items()}
+        for k in ("nx", "pressure_fracface", "pressure_initial", "fluid"):
+            if before.get(k) is not r.fields.get(k):
+                return bad(f"field {k} changed before or after the inherited simulate")
+        tf = r.fields.get("time")
+        if not isinstance(tf, ArrV) or tf is not sims[0]["time"] or r.fields.get("_sim") != 0:
+            return bad("the stored state is not that of the inherited simulate")
+        return be.Verdict(be.PROVED, "STRUCT", detail="one inherited simulate(time) on self, no schedule, no other write")
+
+    def replay(w):
+        import warnings
+        import numpy as np
+        from ..rt import c01 as rt1
+        warnings.simplefilter("ignore")
+        flow = __import__("bluebonnet.flow", fromlist=["x"])
+        for name, tgrid in (("gas", np.linspace(0, 2, 30) ** 2), ("syn_kinked", np.arange(0, 12)), ("gas:desc", np.linspace(0, 1, 8))):
+            fluid = rt1.make_fluid(name)
+            p_i = rt1.P_INITIAL[name]
+            a = flow.reservoir.TwoPhaseReservoir(12, 0.3 * p_i + 0.75, p_i, fluid)
+            b = flow.reservoir.SinglePhaseReservoir(12, 0.3 * p_i + 0.75, p_i, fluid)
+            a.Sw_init = 0.2
+            a.simulate(tgrid.copy())
+            b.simulate(tgrid.copy())
+            same = np.array_equal(np.asarray(a.time), np.asarray(b.time)) and np.asarray(a.pseudopressure).shape == np.asarray(b.pseudopressure).shape and np.allclose(a.pseudopressure, b.pseudopressure, rtol=1e-13, atol=0) \
+                and np.allclose(a.recovery_factor(), b.recovery_factor(), rtol=1e-12, atol=1e-15) and a.pressure_fracface == b.pressure_fracface
+            if not same:
+                return {"reproduced": True, "input": {"table": name, "nx": 12, "p_f": 0.3 * p_i + 0.75, "p_i": p_i, "Sw_init": 0.2, "time": tgrid.tolist()},
+                        "observed": {"max |difference| of the fields": float(np.max(np.abs(np.asarray(a.pseudopressure) - np.asarray(b.pseudopressure)))) if np.asarray(a.pseudopressure).shape == np.asarray(b.pseudopressure).shape else "shapes differ"},
+                        "required": "TwoPhaseReservoir.simulate(time) leaves the state SinglePhaseReservoir.simulate(time) leaves"}
+        return {"reproduced": False}
+
+    return Obligation("twophase.delegates", "TwoPhaseReservoir.simulate(time) is exactly one inherited SinglePhaseReservoir.simulate(time) on the same object with no schedule and no further write (every contract of the single-phase time stepping carries over to the two-phase class)",
+                      run, [RES + "TwoPhaseReservoir.simulate"], "STRUCT", replay)
 
 
 def int_grid_replay(w=None):
